@@ -23,6 +23,7 @@ import (
 	"sync"
 	"sync/atomic"
 	"time"
+	"unsafe"
 
 	"github.com/google/badwolf/bql/grammar"
 	"github.com/google/badwolf/bql/lexer"
@@ -79,7 +80,11 @@ func parseOn(p *grammar.Parser, text string) (v verdict, st *semantic.Statement)
 }
 
 func parseOn0(p *grammar.Parser, text string) (verdict, *semantic.Statement) {
-	st := &semantic.Statement{}
+	return parseInto(p, text, &semantic.Statement{})
+}
+
+// parseInto parses text into the statement the caller allocated.
+func parseInto(p *grammar.Parser, text string, st *semantic.Statement) (verdict, *semantic.Statement) {
 	var v verdict
 	var llk *grammar.LLk
 	if pn := common.Guard(func() {
@@ -631,17 +636,58 @@ func histClassMulti(history []string, then string) string {
 	return histClass(history[len(history)-1], then)
 }
 
+var addressesReused int64
+
+// statementAt allocates statements until one lies at addr (the others are kept alive meanwhile, so every try is a new
+// address) and returns it; after 20000 tries it returns a statement somewhere else.
+func statementAt(addr uintptr) (*semantic.Statement, bool) {
+	var keep []*semantic.Statement
+	for i := 0; i < 20000 && addr != 0; i++ {
+		st := &semantic.Statement{}
+		if uintptr(unsafe.Pointer(st)) == addr {
+			return st, true
+		}
+		keep = append(keep, st)
+	}
+	runtime.KeepAlive(keep)
+	return &semantic.Statement{}, false
+}
+
 // checkHistory parses the history then `then` on one semantic parser and
 // compares `then` with a fresh parser.
 func checkHistory(c histCase, want obs) (ok bool, shape, detail string) {
 	p := newSemantic()
-	for _, a := range c.History {
+	for i, a := range c.History {
+		if c.GC && i == len(c.History)-1 {
+			break // parsed below, where its address is taken
+		}
 		parseOn(p, a)
 	}
+	var got obs
 	if c.GC {
+		// the allocator is free to hand out the address of a statement that is gone: that choice is taken here (fresh
+		// statements are allocated until one lies where the last statement of the history did, up to a bound)
+		var addr uintptr
+		if n := len(c.History); n > 0 {
+			_, st := parseOn(p, c.History[n-1])
+			addr = uintptr(unsafe.Pointer(st))
+		}
 		runtime.GC()
+		runtime.GC()
+		st, reused := statementAt(addr)
+		if reused {
+			atomic.AddInt64(&addressesReused, 1)
+		}
+		v, _ := parseInto(p, c.Then, st)
+		got = obs{V: v}
+		if v.Accepted {
+			if pn := common.Guard(func() { got.Dump = dump(st) }); pn != nil {
+				got.Dump = "DUMP-PANIC " + firstLine(fmt.Sprint(pn))
+			}
+		}
+	} else {
+		got = observe(p, c.Then)
 	}
-	got := observe(p, c.Then)
 	switch {
 	case got.V.Panic != "":
 		return false, "second-statement-panics", fmt.Sprintf("after %q the statement %q: %s (fresh parser: %s)", c.History, c.Then, got.V, want.V)
@@ -1028,6 +1074,7 @@ func main() {
 		}
 	}
 	r.Set("stateless_pairs_with_a_collection_in_between", gcPairs)
+	r.Set("stateless_pairs_second_statement_allocated_at_the_address_of_the_first", int(atomic.LoadInt64(&addressesReused)))
 	common.ParallelFor(len(firsts), func(i int) {
 		a := firsts[i]
 		for _, b := range seconds {
